@@ -164,6 +164,18 @@ func build(a M, asGen bool) (val any, full M) {
 			return gen.Float(f), full
 		}
 		return f, full
+	case "f32":
+		f64, err := strconv.ParseFloat(a["s"].(string), 32)
+		if err != nil {
+			panic(err)
+		}
+		f := float32(f64)
+		lo, hi := f32Midpoints(f)
+		full = M{"t": "flt", "lo": lo, "hi": hi, "ex": absval.RatDec(new(big.Rat).SetFloat64(float64(f))), "s": a["s"]}
+		if asGen {
+			return gen.Float(float64(f)), full
+		}
+		return f, full
 	case "str":
 		s := string(bytesOf(a["v"]))
 		full = M{"t": "str", "v": ints([]byte(s))}
@@ -551,6 +563,40 @@ var strLeaves = func() []string {
 var intLeaves = []int64{1, -1, 42, math.MinInt64, math.MaxInt64, 1 << 31, -(1 << 31) - 1, 1000000, 9007199254740993, 10}
 var fltLeaves = []float64{0.1, 1e21, 1e-7, 5e-324, math.MaxFloat64, 3.0, -2.5, 1e20, 123456789.0, 1e15, 1e-5, 0.000001,
 	-1e21, 1.5e300, 2.2250738585072014e-308, 0.3, 100, 1e6, 123456.789, -0.1, float64(1 << 53), 1e22, 4.35, 0.000123}
+// whole-number floats at and around every integer boundary a fast path could use (int64, uint64, 2^53, int32, uint32,
+// powers of ten up to the point where strconv switches to exponent form)
+var wholeFloats = func() []float64 {
+	p63, p53, p31, p32, p64, p62 := math.Ldexp(1, 63), math.Ldexp(1, 53), math.Ldexp(1, 31), math.Ldexp(1, 32), math.Ldexp(1, 64), math.Ldexp(1, 62)
+	fs := []float64{}
+	for _, f := range []float64{p63, p63 - 1024, p63 + 2048, p53, p53 + 2, p53 - 1, p31, p31 - 1, p32, p32 - 1, p64, p64 - 2048, p62, 1e15, 1e16, 1e17,
+		1e18, 1e19, 1e20, 1e21, 1e22, 999999999999999, 123456789012345680, 9007199254740993} {
+		fs = append(fs, f, -f)
+	}
+	return fs
+}()
+
+// float32 values (C04 only): written with the float32 shortest form, judged against the float32 midpoints
+var f32Leaves = []float32{0.1, 1.5, 16777216, 16777218, 2147483648, 4294967296, 9223372036854775808, -9223372036854775808, 1e10, 1e15, 3e38, 1e-7, -2.5, 100}
+
+func aF32(f float32) M { return M{"t": "f32", "s": strconv.FormatFloat(float64(f), 'g', -1, 32)} }
+
+// midpoints between a float32 and its float32 neighbours (exact decimals); finite neighbours only
+func f32Midpoints(f float32) (lo, hi any) {
+	fr := new(big.Rat).SetFloat64(float64(f))
+	mid := func(a float32) *big.Rat {
+		ar := new(big.Rat).SetFloat64(float64(a))
+		if math.IsInf(float64(a), 0) {
+			ar = new(big.Rat).SetFloat64(math.Ldexp(1, 128)) // the float32 overflow threshold's far side
+			if a < 0 {
+				ar.Neg(ar)
+			}
+		}
+		x := new(big.Rat).Add(fr, ar)
+		return x.Mul(x, big.NewRat(1, 2))
+	}
+	return absval.RatDec(mid(math.Nextafter32(f, float32(math.Inf(-1))))), absval.RatDec(mid(math.Nextafter32(f, float32(math.Inf(1)))))
+}
+
 var zeroLeaves = []M{aInt(0), aFlt(0), aFlt(math.Copysign(0, -1)), aBool(false)}
 var keyUniverse = [][]string{
 	{"a", "b", "c"}, {"b", "a", "c"}, {"", "a", "aa"}, {"A", "a", "B"}, {"k\"q", "k\\", "k/"}, {"<k>", "&", "k"},
@@ -572,6 +618,9 @@ func (f *filler) leaf() M {
 	case k < 7:
 		return aInt(intLeaves[f.r.Intn(len(intLeaves))])
 	case k < 9:
+		if f.r.Intn(3) == 0 {
+			return aFlt(wholeFloats[f.r.Intn(len(wholeFloats))])
+		}
 		return aFlt(fltLeaves[f.r.Intn(len(fltLeaves))])
 	default:
 		return aBool(true)
@@ -712,6 +761,12 @@ func genCases(args []string) {
 	}
 	for _, f := range fltLeaves {
 		leaves = append(leaves, aFlt(f))
+	}
+	for _, f := range wholeFloats {
+		leaves = append(leaves, aFlt(f))
+	}
+	for _, f := range f32Leaves {
+		leaves = append(leaves, aF32(f))
 	}
 	leaves = append(leaves, zeroLeaves...)
 	for li, lf := range leaves {
